@@ -200,6 +200,8 @@ func rootAction(c *cli.Context) (err error) {
 	if err != nil {
 		return err
 	}
+	// contexts are shut down once, after the last target
+	defer taskRunner.Finish()
 
 	targets := c.Args().Slice()
 	if len(targets) > 0 {
